@@ -253,23 +253,22 @@ class SplineSysInterp:
             raise Uninterpretable("statement %s" % norm_stmt(s))
 
     def run_bc_chain(self, s: ast.If, bc: str):
-        node = s
-        while True:
-            t = node.test
-            names = []
-            if isinstance(t, ast.Compare) and isinstance(t.left, ast.Name) and t.left.id == self.bcp and len(t.ops) == 1 and isinstance(t.ops[0], ast.Eq) \
-                    and isinstance(t.comparators[0], ast.Constant):
-                names = [t.comparators[0].value]
-            else:
-                raise Uninterpretable("condition %s" % ast.unparse(t))
-            if bc in names:
-                self.run(node.body, bc)
-                return
-            if len(node.orelse) == 1 and isinstance(node.orelse[0], ast.If):
-                node = node.orelse[0]
-            else:
-                self.run(node.orelse, bc)
-                return
+        """one `if` on the boundary-condition selector, evaluated for the concrete value `bc` (any mix of ==, !=, in, not in, and / or /
+        not; elif chains, guard clauses and negated guards all reduce to this)"""
+        def ev(t):
+            if isinstance(t, ast.BoolOp):
+                vs = [ev(v) for v in t.values]
+                return all(vs) if isinstance(t.op, ast.And) else any(vs)
+            if isinstance(t, ast.UnaryOp) and isinstance(t.op, ast.Not):
+                return not ev(t.operand)
+            if isinstance(t, ast.Compare) and isinstance(t.left, ast.Name) and t.left.id == self.bcp and len(t.ops) == 1:
+                op, r = t.ops[0], t.comparators[0]
+                if isinstance(r, ast.Constant) and isinstance(op, (ast.Eq, ast.NotEq)):
+                    return (bc == r.value) == isinstance(op, ast.Eq)
+                if isinstance(r, (ast.Tuple, ast.List, ast.Set)) and isinstance(op, (ast.In, ast.NotIn)) and all(isinstance(e, ast.Constant) for e in r.elts):
+                    return (bc in [e.value for e in r.elts]) == isinstance(op, ast.In)
+            raise Uninterpretable("condition %s" % ast.unparse(t))
+        self.run(s.body if ev(s.test) else s.orelse, bc)
 
     def store(self, tg: ast.Subscript, value: ast.AST, op: str, stmt):
         base = tg.value
@@ -514,18 +513,9 @@ def check_slope_system(model: Model, B, prop: str, rule: str, hermite: Callable[
     except Uninterpretable as e:
         raise AnalysisError("%s: cannot differentiate the Hermite form: %s" % (rule, e))
     # boundary conditions implemented = branches of the chain
-    bcs = []
-    for s in fi.node.body:
-        if isinstance(s, ast.If):
-            node = s
-            while True:
-                t = node.test
-                if isinstance(t, ast.Compare) and isinstance(t.comparators[0], ast.Constant):
-                    bcs.append(t.comparators[0].value)
-                if len(node.orelse) == 1 and isinstance(node.orelse[0], ast.If):
-                    node = node.orelse[0]
-                else:
-                    break
+    from ..model import mode_paths, OTHER_MODE
+    mp = mode_paths(fi.node.body, fi.params()[1])
+    bcs = [v for v, (_, end) in mp.items() if isinstance(v, str) and v != OTHER_MODE and end != "raise"]
     if not bcs:
         raise AnalysisError("%s: no boundary-condition branches found in _get_spline_mat_inv" % rule)
     for bc in bcs:
